@@ -19,7 +19,7 @@ from ast2c import ExtractionBreak, Types
 import spec as specmod
 
 REPO = ast2c.REPO
-WORK = os.path.join(VERIF, '.work')
+WORK = os.environ.get('VERIF_WORK') or os.path.join(VERIF, '.work')
 SHIM = os.path.join(VERIF, 'shim')
 
 CHECK_FLAGS_DEFAULT = ['--bounds-check', '--pointer-check', '--div-by-zero-check', '--signed-overflow-check',
